@@ -3,8 +3,78 @@ use crate::comp::*;
 use crate::plain;
 use crate::tx::{fnv, hex, Ctx};
 
+fn hlim_line(ctx: &mut Ctx, before: &[i32], after: &[i32], len: usize, max: usize, src: &str) {
+    let id = ctx.id();
+    let j = |v: &[i32]| v.iter().map(|x| x.to_string()).collect::<Vec<_>>().join(",");
+    ctx.line(&format!("HLIM id={} rp=HLIMR in={} len={} max={} out={} src={}", id, j(before), len, max, j(after), src));
+    ctx.count(&format!("hlim_{}", src));
+    ctx.eval(before.iter().fold(len as u64 * 31 + max as u64, |h, &x| h.wrapping_mul(1099511628211).wrapping_add(x as u64)));
+}
+
+/// the calls `optimize_table` made to `enforce_max_code_size` since the last drain (hook trace): all
+/// those in which the limit was exceeded or the histogram was not complete, a sample of the rest
+fn drain_huff_trace(ctx: &mut Ctx, family: &str) {
+    let tr = miniz_oxide::verif_huff_trace::take();
+    let step = (tr.len() / 120).max(1);
+    for (i, (b, a, len, max)) in tr.iter().enumerate() {
+        let over = b[(*max + 1).min(32)..].iter().any(|&x| x != 0);
+        if over { ctx.count(&format!("hlim_trace_over_limit_{}", family)); }
+        if over || b != a || i % step == 0 { hlim_line(ctx, &b[..], &a[..], *len, *max, "trace"); }
+    }
+}
+
+/// `enforce_max_code_size` on generated histograms, through the hook function: complete prefix codes of
+/// any depth up to 32 (random leaf splitting, deep-biased), incomplete ones, and - outside the hypotheses
+/// of the theorem, model = code only - over-full ones and the no-op cases
+fn huff_limit_generated(ctx: &mut Ctx) {
+    for k in 0..(400 * ctx.scale) {
+        let mut n = [0i32; 33];
+        n[1] = 2;
+        let mut count = 2usize;
+        let target = *ctx.rng.pick(&[2usize, 3, 5, 19, 30, 40, 100, 286, 288]).min(&ctx.rng.range(2, 289));
+        let deep = ctx.rng.chance(1, 2);
+        while count < target {
+            // pick a level that has a leaf; deep-biased: the deepest one most of the time
+            let levels: Vec<usize> = (1..32).filter(|&d| n[d] > 0).collect();
+            let d = if deep && ctx.rng.chance(3, 4) { *levels.last().unwrap() } else { *ctx.rng.pick(&levels) };
+            n[d] -= 1; n[d + 1] += 2; count += 1;
+        }
+        let kind = k % 5;
+        if kind == 1 { // incomplete: drop a few leaves
+            for _ in 0..ctx.rng.range(1, 4) { if count > 2 { let levels: Vec<usize> = (1..33).filter(|&d| n[d] > 0).collect(); let d = *ctx.rng.pick(&levels); n[d] -= 1; count -= 1; } }
+        }
+        let mut len = count;
+        let minmax = (1..32).find(|&m| count <= (1usize << m)).unwrap();
+        let mut max = match ctx.rng.below(5) { 0 => 7.max(minmax), 1 => 15.max(minmax), 2 => minmax, 3 => ctx.rng.range(minmax, 21), _ => ctx.rng.range(minmax, (minmax + 3).min(20) + 1) };
+        if kind == 2 { // over-full (outside the theorem): extra codes on shallow levels, few loop rounds
+            max = ctx.rng.range(2, 9);
+            n = [0i32; 33];
+            for d in 1..=max { n[d] = ctx.rng.range(0, 4) as i32; }
+            n[max] += ctx.rng.range(0, 40) as i32;
+            len = n.iter().map(|&x| x as usize).sum();
+        }
+        if kind == 3 && k % 15 == 3 { len = ctx.rng.range(0, 2); } // the early return
+        let before = n;
+        let mut after = n;
+        let r = std::panic::catch_unwind(std::panic::AssertUnwindSafe(|| { let mut a = after; miniz_oxide::deflate::core::verif_enforce_max_code_size(&mut a, len, max); a }));
+        match r { Ok(a) => after = a, Err(_) => { let id = ctx.id(); ctx.violation(id, "panic", format!("enforce_max_code_size panicked on {:?} len {} max {}", &before[..], len, max), format!("HLIMR in={} len={} max={} src=gen", before.iter().map(|x| x.to_string()).collect::<Vec<_>>().join(","), len, max)); continue; } }
+        ctx.count(&format!("hlim_gen_kind_{}", kind));
+        hlim_line(ctx, &before, &after, len, max, "gen");
+    }
+}
+
+fn replay_hlim(ctx: &mut Ctx, lines: &[String]) {
+    for l in lines { if let Some(rest) = l.strip_prefix("HLIMR ") { let kv = crate::kv(rest);
+        let mut n: Vec<i32> = kv["in"].split(',').map(|x| x.parse().unwrap_or(0)).collect();
+        let before = n.clone();
+        let (len, max) = (kv["len"].parse().unwrap_or(0), kv["max"].parse().unwrap_or(1));
+        miniz_oxide::deflate::core::verif_enforce_max_code_size(&mut n, len, max);
+        hlim_line(ctx, &before, &n, len, max, "gen"); } }
+}
+
 pub fn run(ctx: &mut Ctx) {
-    if ctx.replay_lines.is_some() { return crate::c02::run(ctx); }
+    if let Some(lines) = ctx.replay_lines.clone() { replay_hlim(ctx, &lines); return crate::c02::run(ctx); }
+    let _ = miniz_oxide::verif_huff_trace::take();
     // every (level, strategy) pair, both formats, window bits cycling 8..15
     let mut k = 0u64;
     let reps = ctx.scale;
@@ -30,6 +100,7 @@ pub fn run(ctx: &mut Ctx) {
         let seed = ctx.rng.next();
         crate::c02::case(ctx, &cfg, &data, "wrap_runs", Sink::Buf, false, seed, "rt,mode,header");
     }
+    drain_huff_trace(ctx, "general");
     // Huffman trees deeper than the 15-bit limit (Fibonacci frequencies): the length limiter must keep
     // a code for every symbol, end-of-block included
     for k in 0..(20 * ctx.scale) {
@@ -38,7 +109,9 @@ pub fn run(ctx: &mut Ctx) {
         let seed = ctx.rng.next();
         ctx.count("deep_tree_cases");
         crate::c02::case(ctx, &cfg, &data, "deep_tree", Sink::Buf, false, seed, "rt,mode,header");
+        if k % 4 == 3 { drain_huff_trace(ctx, "deep_tree"); }
     }
+    drain_huff_trace(ctx, "deep_tree");
     // zero runs in the code-length sequence exactly at the 138 / 11 / 3 boundaries of the run codes
     for k in 0..(60 * ctx.scale) {
         let data = plain::gen(&mut ctx.rng, "clen_runs", 0);
@@ -47,6 +120,8 @@ pub fn run(ctx: &mut Ctx) {
         ctx.count("clen_runs_cases");
         crate::c02::case(ctx, &cfg, &data, "clen_runs", Sink::Buf, false, seed, "rt,mode,header");
     }
+    drain_huff_trace(ctx, "clen_runs");
+    huff_limit_generated(ctx);
     // stale hash entries almost a whole dictionary back (level 1 loads up to 4 KiB of lookahead first)
     for _ in 0..(16 * ctx.scale) {
         let len = ctx.rng.range(40000, 120000);
